@@ -57,7 +57,7 @@ class CreateKnowledgeBase(ASTNode):
 
     def get_string(self, *args, **kwargs):
         from_query_str = (
-            f"FROM ({self.from_query.get_string()})" if self.from_query else ""
+            f"FROM ({self.from_query.to_string()})" if self.from_query else ""
         )
 
         using_ar = []
